@@ -141,6 +141,9 @@ type srvEmit struct {
 	// unencodable: the emit carries a value that cannot be encoded (a channel): nothing goes out, and an ack
 	// given with a timeout still gets its one call (the timeout)
 	unencodable bool
+	// badReply: the peer's reply arrives in time but cannot be decoded into the callback's parameter types (an
+	// object where a string is expected): the reply is unusable, so an ack with a timeout gets its timeout
+	badReply bool
 }
 
 // staleAck: an acknowledgement that belongs to a PREVIOUS session of the same client arrives on its new
@@ -308,6 +311,8 @@ func serverSide(name string, emits []srvEmit, wrongID bool, cut time.Duration, b
 				for k := 0; k < n; k++ {
 					if em.binary > 0 {
 						f.InPackets(vrig.Msg(fmt.Sprintf(`6%d-%s[{"_placeholder":true,"num":0},{"_placeholder":true,"num":1}]`, 2, id)), vrig.Bin([]byte{1, byte(i)}), vrig.Bin([]byte{2, byte(i)}))
+					} else if em.badReply {
+						f.In(fmt.Sprintf(`3%s[{"not":"a string"}]`, id))
 					} else {
 						f.In(fmt.Sprintf(`3%s["%s"]`, id, em.reply))
 					}
@@ -343,6 +348,9 @@ func serverSide(name string, emits []srvEmit, wrongID bool, cut time.Duration, b
 				if em.timeout {
 					mayReply := em.reply != "" && (early || (em.replyDelay <= T && !cutBefore))
 					mayTimeout := early || em.reply == "" || em.replyDelay >= T || cutBefore
+					if em.badReply {
+						mayReply, mayTimeout = false, true
+					}
 					judgeTimeoutAck(&r, what, "server", logs[i].calls, want, mayReply, mayTimeout)
 				} else {
 					if len(logs[i].calls) > 1 {
@@ -716,6 +724,8 @@ func clientOnline(name string, delays []time.Duration, attachments int, cut time
 				}
 				ack(fmt.Sprintf("r%d", i))
 			})
+			// answers at once with a number where the client's callback takes a string
+			s.OnEvent("qbad", func(i int, ack func(int)) { ack(7) })
 			s.OnEvent("qb", func(i int, b sio.Binary, ack func(string, sio.Binary)) {
 				d := delays[i]
 				if d < 0 {
@@ -745,6 +755,9 @@ func clientOnline(name string, delays []time.Duration, attachments int, cut time
 				sock.Timeout(T).Emit("qb", i, sio.Binary{1, 2}, func(err error, s string, b sio.Binary) {
 					logs[i].add(fmt.Sprintf("%s|%s", errStr(err), s))
 				})
+			} else if attachments == -4 && i == 0 {
+				// the first emit gets a reply it cannot use (wrong type): its ack times out
+				sock.Timeout(T).Emit("qbad", i, func(err error, s string) { logs[i].add(errStr(err) + "|" + s) })
 			} else if attachments < 0 && i == 0 {
 				// the first emit carries an argument that cannot be encoded: nothing goes out, its ack times out
 				sock.Timeout(T).Emit("q", i, make(chan int), func(err error, s string) { logs[i].add(errStr(err) + "|" + s) })
@@ -828,6 +841,8 @@ func scenariosMode(tier string, early bool) []*vx.Scenario {
 		serverSide("server/timeout-duplicate-at-T", []srvEmit{{ev: "a", timeout: true, reply: "ra", replyDelay: T, duplicate: true}}, false, 0, b1, early),
 		serverSide("server/binary-reply", []srvEmit{{ev: "a", reply: "-", binary: 2}}, false, 0, b1, early),
 		serverSide("server/binary-timeout-at-T", []srvEmit{{ev: "a", timeout: true, reply: "-", binary: 2, replyDelay: T}}, false, 0, b1, early),
+		serverSide("server/timeout-reply-of-the-wrong-type", []srvEmit{{ev: "a", timeout: true, reply: "bad", badReply: true, replyDelay: time.Second}}, false, 0, b1, early),
+		serverSide("server/timeout-reply-of-the-wrong-type-then-plain-reply", []srvEmit{{ev: "a", timeout: true, reply: "bad", badReply: true}, {ev: "b", reply: "rb"}}, false, 0, b1, early),
 		serverSide("server/timeout-unencodable-argument", []srvEmit{{ev: "a", timeout: true, unencodable: true}}, false, 0, b1, early),
 		serverSide("server/unencodable-then-plain-reply", []srvEmit{{ev: "a", timeout: true, unencodable: true}, {ev: "b", reply: "rb"}}, false, 0, b1, early),
 		handlerAcksWire("server/handler-acks-on-the-wire/root", "/", b1),
@@ -854,6 +869,7 @@ func scenariosMode(tier string, early bool) []*vx.Scenario {
 		clientOnline("client-online/ack-late", []time.Duration{T + time.Second}, 0, 0, b2, early),
 		clientOnline("client-online/never", []time.Duration{-1}, 0, 0, b2, early),
 		clientOnline("client-online/binary-at-T", []time.Duration{T}, 1, 0, b2, early),
+		clientOnline("client-online/reply-of-the-wrong-type-then-ack-at-once", []time.Duration{0, 0}, -4, 0, b2, early),
 		clientOnline("client-online/unencodable-argument-then-ack-at-once", []time.Duration{0, 0}, -1, 0, b2, early),
 		clientOnline("client-online/3-outstanding", []time.Duration{time.Second, T, -1}, 0, 0, b2, early),
 		clientOnline("client-online/cut-mid-flight", []time.Duration{3 * time.Second, -1}, 0, 2*time.Second, b2, early),
